@@ -7,6 +7,8 @@
 //	     mode 0 unary (error => trailers-only response)
 //	          1 server-streaming, the handler sends one message and then returns
 //	          2 server-streaming, the handler returns immediately (trailers-only)
+//	          3 as 2, and the client calls ClientStream.Header() before RecvMsg
+//	          4 as 3 on a bidirectional stream
 //	     code the uint32 status code; 0 means the handler returns nil
 //	     msg, type_url, value byte strings [len, bytes...]; the handler returns
 //	     status.FromProto(&spb.Status{Code: int32(code), Message: msg, Details: anys}).Err()
@@ -21,6 +23,7 @@ import (
 	"context"
 	"io"
 	"net"
+	"strings"
 	"sync"
 	"sync/atomic"
 	"testing"
@@ -38,11 +41,11 @@ import (
 
 type vStatusWireEnv struct {
 	stressCode uint32
-	cc   *grpc.ClientConn
-	srv  *grpc.Server
-	cur  error
-	send bool
-	stop func()
+	cc         *grpc.ClientConn
+	srv        *grpc.Server
+	cur        error
+	send       bool
+	stop       func()
 }
 
 func vStatusWireUnary(srv any, ctx context.Context, dec func(any) error, _ grpc.UnaryServerInterceptor) (any, error) {
@@ -92,7 +95,8 @@ var vStatusWireDesc = grpc.ServiceDesc{
 	HandlerType: (*any)(nil),
 	Methods:     []grpc.MethodDesc{{MethodName: "U", Handler: vStatusWireUnary}, {MethodName: "SU", Handler: vStatusWireStressUnary}},
 	Streams: []grpc.StreamDesc{{StreamName: "S", Handler: vStatusWireStream, ServerStreams: true},
-		{StreamName: "SS", Handler: vStatusWireStressStream, ServerStreams: true}},
+		{StreamName: "SS", Handler: vStatusWireStressStream, ServerStreams: true},
+		{StreamName: "B", Handler: vStatusWireStream, ServerStreams: true, ClientStreams: true}},
 }
 
 func vStatusWireStart() *vStatusWireEnv {
@@ -146,12 +150,16 @@ func vStatusWireStress(env *vStatusWireEnv, g, n int, code uint32) int64 {
 }
 
 func vStatusWireCallM(env *vStatusWireEnv, mode int64, um, sm string) error {
-	ctx, cancel := context.WithTimeout(context.Background(), 60*time.Second)
+	ctx, cancel := context.WithTimeout(context.Background(), 15*time.Second)
 	defer cancel()
 	if mode == 0 {
 		return env.cc.Invoke(ctx, um, &emptypb.Empty{}, &emptypb.Empty{})
 	}
-	cs, err := env.cc.NewStream(ctx, &vStatusWireDesc.Streams[0], sm)
+	desc := &vStatusWireDesc.Streams[0]
+	if mode == 4 {
+		desc, sm = &vStatusWireDesc.Streams[2], "/verif.StatusWire/B"
+	}
+	cs, err := env.cc.NewStream(ctx, desc, sm)
 	if err != nil {
 		return err
 	}
@@ -159,6 +167,9 @@ func vStatusWireCallM(env *vStatusWireEnv, mode int64, um, sm string) error {
 		return err
 	}
 	cs.CloseSend()
+	if mode >= 3 {
+		cs.Header() // waits for the (trailers-only) response; the status must still come from RecvMsg
+	}
 	for {
 		err := cs.RecvMsg(&emptypb.Empty{})
 		if err == io.EOF {
@@ -184,7 +195,7 @@ func vStatusWireExec(cfg []int64, ops [][]int64) ([][]int64, bool, []string) {
 				tagStress = true
 				return
 			}
-			if len(op) < 4 || op[0] != 1 || op[1] < 0 || op[1] > 2 || op[2] < 0 || op[2] > 0xffffffff {
+			if len(op) < 4 || op[0] != 1 || op[1] < 0 || op[1] > 4 || op[2] < 0 || op[2] > 0xffffffff {
 				return
 			}
 			mode, code := op[1], uint32(op[2])
@@ -275,6 +286,31 @@ func vStatusWireGen(r *vRand, tier string, idx int) ([]int64, [][]int64) {
 		}
 		return nil, [][]int64{{2, g, n, 7}, vStatusWireOp(0, 3, "after"), {2, 1, n, 14}, {2, 4, n, 16}}
 	}
+	if idx == 5 || (tier == "thorough" && idx%100 == 5) {
+		// trailer blocks above one HTTP/2 frame (16384 bytes after HPACK): HEADERS + CONTINUATION
+		tilde := strings.Repeat("~", 12000) // '~' has a 13-bit Huffman code: about 19.5 KB on the wire
+		big := make([]byte, 20000)
+		for i := range big {
+			big[i] = byte(r.Intn(256))
+		}
+		ops = [][]int64{vStatusWireOp(0, 5, tilde), vStatusWireOp(1, 9, "m", "t", string(big)), vStatusWireOp(2, 13, tilde, "t", "v")}
+		if tier == "thorough" {
+			huge := make([]byte, 70000)
+			for i := range huge {
+				huge[i] = byte(r.Intn(256))
+			}
+			ops = append(ops, vStatusWireOp(0, 3, "m", "t", string(huge)), vStatusWireOp(1, 7, tilde+tilde))
+		}
+		return nil, ops
+	}
+	if idx == 6 || (tier == "thorough" && idx%100 == 6) {
+		// trailers-only non-OK response, Header() before RecvMsg: the status already received must win
+		// over the stream's cancelled context (a random select in the transport: sampled 40 times)
+		for i := 0; i < 40; i++ {
+			ops = append(ops, vStatusWireOp(3+int64(i%2), int64(1+i%16), "hdr first", "t", "v"))
+		}
+		return nil, ops
+	}
 	switch idx {
 	case 0: // finding replay: a code above 2^31-1
 		return nil, [][]int64{vStatusWireOp(0, 1<<31, "big")}
@@ -315,7 +351,7 @@ func vStatusWireGen(r *vRand, tier string, idx int) ([]int64, [][]int64) {
 			}
 			msg = string(rs)
 		}
-		ops = append(ops, vStatusWireOp(int64(r.Intn(3)), code, msg, ds...))
+		ops = append(ops, vStatusWireOp(int64(r.Intn(5)), code, msg, ds...))
 	}
 	return nil, ops
 }
